@@ -336,6 +336,19 @@ class Parser:
                 self.eat(";")
                 stmts.append(("letelse", name, e, eb))
                 continue
+            if self.at("let") and self.peek(1)[1] == "(":
+                self.i += 2
+                names = []
+                while not self.at(")"):
+                    names.append(self.ident())
+                    if not self.opt(","):
+                        break
+                self.eat(")")
+                self.eat("=")
+                e = self.expr()
+                self.eat(";")
+                stmts.append(("lettuple", names, e))
+                continue
             if self.at("let"):
                 self.i += 1
                 mut = self.opt("mut")
@@ -540,6 +553,9 @@ class Parser:
             segs = [self.ident()]
             while self.at("::"):
                 self.i += 1
+                if self.at("<"):
+                    self.skip_generics()   # `Type::<T>::name`
+                    continue
                 segs.append(self.ident())
             if self.at("!"):
                 self.i += 1
@@ -652,6 +668,10 @@ class Gen:
             return "Unit"
         if ty in getattr(self, "enums", {}) or ty in getattr(self, "structs", {}):
             return ty
+        if ty.startswith("tuple<"):
+            return "(" + " × ".join(self.lean_ty(t_) for t_ in ty[6:-1].split(",")) + ")"
+        if ty == "Leaf":
+            return "Nat"     # a leaf value: an opaque identifier (its hash and index are reads)
         if ty in ("Address", "MuxedAddress"):
             return "Nat"     # an account / contract: an opaque identifier (a muxed address: its account)
         if ty == "Bytes32":
@@ -1280,7 +1300,7 @@ class Gen:
                     self._writer_ok = False
                     al = [env["$st"][0]] + al
                 if ns in getattr(self, "reads_ns", set()):
-                    al = ["envr"] + al
+                    al = ["envr" if ns == self.cur_ns else f"envr.{ns.lower()}"] + al
                     self.uses_reads = True
                 v = self.fresh()
                 return f"(Comp.bind ({ns}.{name} {' '.join(al)}) fun {v} =>\n {k(v, rty)})"
@@ -1320,6 +1340,29 @@ class Gen:
             if i == len(stmts):
                 return k_end(env)
             s = stmts[i]
+            if s[0] == "lettuple":
+                def klt(a, t):
+                    if not t.startswith("tuple<"):
+                        raise Unsupported("tuple pattern on " + t)
+                    tys = t[6:-1].split(",")
+                    if len(tys) != len(s[1]):
+                        raise Unsupported("tuple pattern arity")
+                    env2 = dict(env)
+                    for j, (nm_, ty_) in enumerate(zip(s[1], tys)):
+                        proj = a + "".join(".2" for _ in range(j)) + (".1" if j < len(tys) - 1 else "")
+                        env2[nm_] = (proj, ty_)
+                    return go(i + 1, env2)
+                return self.tr(s[2], env, klt, ret)
+            if s[0] == "expr" and self.strip(s[1])[0] == "match":
+                m_ = self.strip(s[1])
+                pats = [p_ for p_, _ in m_[2]]
+                if sorted(str(p_) for p_ in pats) == sorted(str(p_) for p_ in [("bind", "true", None), ("bind", "false", None)]):
+                    # `match cond { true => A, false => B };` as a statement: an if-statement
+                    arms_ = {p_[1]: b_ for p_, b_ in m_[2]}
+                    blk = lambda b_: b_ if b_[0] == "block" else ("block", [("expr", b_)], None)
+                    stmts2 = list(stmts)
+                    stmts2[i] = ("expr", ("if", m_[1], blk(arms_["true"]), blk(arms_["false"])))
+                    return self.tr_stmts(stmts2[i:], env, k_end, ret)
             if s[0] == "let" and getattr(self, "store", None):
                 ko = self.key_of(s[3], env)
                 if ko is not None:
@@ -1741,6 +1784,15 @@ FILES_MERKLE = [("Merkle", "packages/contract-utils/src/crypto/hashable.rs", ["c
                 ("Merkle", "packages/contract-utils/src/crypto/merkle.rs", ["verify", "verify_with_index"])]
 TYMAPS_MERKLE = {"packages/contract-utils/src/crypto/hashable.rs": {"H": "Bytes32", "S": "Hasher!", "Output": "Bytes32"},
                  "packages/contract-utils/src/crypto/merkle.rs": {"H": "Hasher!"}}
+STORE_DIST = {"Distributor": {"Root": ([], "Bytes32"), "Claimed": (["u32"], "bool")}}
+READS_DIST = {"Distributor": {"merkle": "reads:Merkle", "leaf_hash": ("purefn", ["Leaf"], "Bytes32"), "leaf_index": ("purefn", ["Leaf"], "u32")},
+              "Merkle": READS_MERKLE["Merkle"]}
+FILES_DIST = [("Distributor", "packages/contract-utils/src/merkle_distributor/storage.rs",
+               ["get_root", "is_claimed", "set_root", "set_claimed", "verify_and_set_claimed", "verify_with_index_and_set_claimed"])]
+TYMAPS_DIST = dict(TYMAPS_MERKLE, **{"packages/contract-utils/src/merkle_distributor/storage.rs": {"H": "Hasher!", "Output": "Bytes32", "N": "Leaf"}})
+STUBS_DIST = {"get_verification_args": ("Distributor", "get_root", ["Leaf"], "tuple<Bytes32,Bytes32,u32>",
+    "def Distributor.get_verification_args (envr : Distributor.Reads) (st : Distributor.Store) (leaf : Nat) : Comp (B32 × B32 × Nat) :=\n"
+    " (Comp.bind (Distributor.get_root envr st) fun root =>\n Comp.ok (root, envr.leaf_hash leaf, envr.leaf_index leaf))\n")}
 READS_CAP = {"Capped": {"get_Cap": "Option<i128>", "get_TotalSupply": "Option<i128>"}}
 
 FILES_WEBAUTHN = [
@@ -1773,7 +1825,7 @@ def deps(e, acc):
 
 
 def translate(repo, FILES=FILES, DEPS=(), imports=("OZ.Model.RustSem",), reads=None, structs=None, tymaps=None,
-              store=None, impl_types=None):
+              store=None, impl_types=None, stubs=None):
     """DEPS: files translated elsewhere whose signatures are needed (parsed, not emitted);
     reads: {namespace: {getter name: Rust type}} — the side-effect-free state getters (`Self::name(e)`)
     that become fields of the record `<namespace>.Reads` passed to every function of that namespace"""
@@ -1810,6 +1862,8 @@ def translate(repo, FILES=FILES, DEPS=(), imports=("OZ.Model.RustSem",), reads=N
             r = re.sub(r"\bSelf\b", self_ty, f[3]) if self_ty else f[3]
             sigs[(ns, f[1])] = (ptys, r)
         parsed.append((ns, rel, fns))
+    for sn, (sns, after, ptys_, rty_, text_) in (stubs or {}).items():
+        sigs[(sns, sn)] = (ptys_, rty_)
     reads_done = set()
     free_fns = {(ns, f[1]) for ns, rel, fns in parsed for f in fns if f[5] is None}
     # functions that need a `fuel` argument: those with a `while`, and (transitively) their callers
@@ -1874,6 +1928,12 @@ def translate(repo, FILES=FILES, DEPS=(), imports=("OZ.Model.RustSem",), reads=N
                 if rt == "addr2bool":
                     out.append(f"  {rn} : Nat → Bool")
                     continue
+                if isinstance(rt, str) and rt.startswith("reads:"):
+                    out.append(f"  {rn} : {rt[6:]}.Reads")
+                    continue
+                if isinstance(rt, tuple) and rt[0] == "purefn":
+                    out.append(f"  {rn} : {' → '.join(g0.lean_ty(t_) for t_ in rt[1])} → {g0.lean_ty(rt[2])}")
+                    continue
                 if isinstance(rt, tuple):
                     out.append(f"  {rn} : {' → '.join(g0.lean_ty(t_) for t_ in rt[1])} → Comp {g0.lean_ty(rt[2])}")
                     continue
@@ -1925,6 +1985,9 @@ def translate(repo, FILES=FILES, DEPS=(), imports=("OZ.Model.RustSem",), reads=N
         g.structs = structs or {}
         for f in order:
             out.append(g.function(ns, f, free))
+            for sn, (sns, after, ptys_, rty_, text_) in (stubs or {}).items():
+                if sns == ns and after == f[1]:
+                    out.append("/-- HAND-WRITTEN stand-in (declared in tools/rs2lean.py), not translated: see the theorem file -/\n" + text_)
     out.append("end OZ.Gen")
     # the unit enums the generated code mentions, declared once, before everything else
     text = "\n".join(out)
@@ -2210,7 +2273,10 @@ def main():
                 sys.stdout.write(txt)
         sys.exit(rc)
     try:
-        if "--pausable" in sys.argv:
+        if "--dist" in sys.argv:
+            txt = translate(repo, FILES_DIST, DEPS=FILES_MERKLE, imports=("OZ.Gen.Merkle",), reads=READS_DIST, store=STORE_DIST,
+                            tymaps=TYMAPS_DIST, impl_types={"Verifier": "Merkle", "MerkleDistributor": "Distributor"}, stubs=STUBS_DIST)
+        elif "--pausable" in sys.argv:
             txt = translate(repo, FILES_PAUSABLE, reads={"Pausable": {}}, store=STORE_PAUSABLE)
         elif "--fungible" in sys.argv:
             txt = translate(repo, FILES_FUNGIBLE, reads=READS_FUNGIBLE, structs=STRUCTS_FUNGIBLE, store=STORE_FUNGIBLE,
